@@ -229,7 +229,10 @@ partial def decSchema (v : JVal) : R Schema :=
     let named (k : String) : R (Bool × List (String × Schema)) := match f k with
       | none => pure (false, [])
       | some (.obj m) => do
-        let l ← m.mapM fun kv => do pure (kv.1, ← decSchema kv.2)
+        -- "Ignore malformed values": the parser keeps only dict / bool entries (e.g. drops the `_x_autotitle`
+        -- annotation that the title labeller puts on the map itself)
+        let l ← (m.filter fun kv => match kv.2 with | .obj _ => true | .bool _ => true | _ => false).mapM fun kv => do
+          pure (kv.1, ← decSchema kv.2)
         pure (true, l)
       | some _ => throw s!"keyword {k}: expected an object"
     let (itemsKind, items) ← match f "items" with
@@ -241,7 +244,7 @@ partial def decSchema (v : JVal) : R Schema :=
     let (hasDeps, deps) ← match f "dependencies" with
       | none => pure (false, [])
       | some (.obj m) => do
-        let l ← m.mapM fun kv => match kv.2 with
+        let l ← (m.filter fun kv => match kv.2 with | .obj _ => true | .bool _ => true | .arr _ => true | _ => false).mapM fun kv => match kv.2 with
           | .arr _ => do
             let names ← asStrList "dependencies" (some kv.2)
             pure (({ name := kv.1, names := names } : Key), Schema.bool true)
